@@ -172,6 +172,8 @@ def prove_lemma(lm, library, seed=0):
                             for subs in h.ih_extra(f, val, h.vars):
                                 ih.append(z3.substitute(h.stmt, (h.ind, f), *subs))
             v = solve.prove(ih, goal, seed=seed, lemmas=[library[u] for u in g.uses], split_depth=g.split_depth)
+            if v.status == 'refuted':
+                v.inputs = {str(x): (val if x.eq(g.ind) else x) for x in g.vars}
             results.append((f'lemma:{g.name}/arm={cn}', v))
             ok = ok and v.status == 'proved'
     for g in group:
